@@ -47,7 +47,7 @@ pub fn run(ctx: &Ctx) -> Outcome {
     // as the class of its case orbit (k K KELVIN SIGN, s S LONG S, ..)
     {
         use crate::ast::{Mode, Node, Node::*, A};
-        let fold_atoms = vec![Node::lit("k"), Node::lit("s"), Node::lit("\u{17f}"), Node::lit("ks"), Flags("".into(), "i".into(), Some(Box::new(Node::lit("k")))), Any(false), Assert(A::WordB)];
+        let fold_atoms = vec![Node::lit("k"), Node::lit("K"), Node::lit("s"), Node::lit("\u{17f}"), Node::lit("ks"), Flags("".into(), "i".into(), Some(Box::new(Node::lit("k")))), Any(false), Assert(A::WordB)];
         let mut g2 = crate::gen::Gen::with_atoms(fold_atoms, vec![(0, Some(1), Mode::Greedy), (1, None, Mode::Lazy), (2, Some(2), Mode::Greedy)], false, true);
         let fillers = g2.upto(2);
         let texts = crate::gen::texts(&["k", "K", "\u{212a}", "s", "\u{17f}", "-"], 3);
@@ -64,7 +64,7 @@ pub fn run(ctx: &Ctx) -> Outcome {
         let a6 = diff::run_items(ctx, "C01", &items, false, crate::refm::BUDGET);
         acc.add("case-fold-evaluations", a6.evals);
         acc.merge(a6);
-        describe.push_str(&format!("; plus {} patterns (?i:P), P from context products and trees of <= 3 nodes over k s LONG-S ks (?-i:k) . \\b, judged against the reference run on P with every letter replaced by the class of its case orbit, x all texts over k K KELVIN-SIGN s LONG-S - up to length 3, every offset", items.len()));
+        describe.push_str(&format!("; plus {} patterns (?i:P), P from context products and trees of <= 3 nodes over k K s LONG-S ks (?-i:k) . \\b, judged against the reference run on P with every letter replaced by the class of its case orbit, x all texts over k K KELVIN-SIGN s LONG-S - up to length 3, every offset", items.len()));
     }
     diff::run_witnesses(ctx, "C01", "F1", &mut acc);
     let mut out = Outcome::new(acc);
